@@ -114,8 +114,12 @@ Proof.
 Qed.
 Lemma nt_collect_garbage roots : nt (collect_garbage roots).
 Proof. unfold collect_garbage. repeat first [apply nt_gc_loop | nt3]. Qed.
+Lemma nt_child_level v : nt (child_level v).
+Proof. unfold child_level. repeat nt3. Qed.
+Lemma nt_dep_count y X : nt (dep_count y X).
+Proof. unfold dep_count. repeat first [apply nt_child_level | nt3]. Qed.
 Ltac nt4 :=
-  first [ apply nt_levels | apply nt_swap_collect | apply nt_swap_up | apply nt_swap_indep
+  first [ apply nt_dep_count | apply nt_levels | apply nt_swap_collect | apply nt_swap_up | apply nt_swap_indep
         | apply nt_swap_dep | apply nt_var_at_level | apply nt_level_of_var
         | apply nt_collect_garbage | nt1 ].
 Lemma nt_swap x y al : nt (swap x y al).
@@ -138,3 +142,159 @@ Lemma nt_reorder_to_pairs p : nt (reorder_to_pairs p).
 Proof. unfold reorder_to_pairs. repeat nt5. Qed.
 Lemma nt_reorder o : nt (reorder o).
 Proof. destruct o; [apply nt_sort_to_order|apply nt_apply_sifting]. Qed.
+
+(** ** with an unbounded table ([max_nodes = None]) the reordering functions
+    never raise the full-table error and leave [max_nodes] alone *)
+Definition nft {A} (m : MS A) : Prop :=
+  ∀ s r s', max_nodes s = None → m s = (r, s') → max_nodes s' = None ∧ r ≠ Err ERuntime.
+
+Lemma nft_ret {A} (a : A) : nft (ret a).
+Proof. by intros s r s' Ht [= <- <-]. Qed.
+Lemma nft_raise {A} e : e ≠ ERuntime → nft (raise e : MS A).
+Proof. intros He s r s' Ht [= <- <-]. split; [done|congruence]. Qed.
+Lemma nft_get : nft (get : MS st).
+Proof. by intros s r s' Ht [= <- <-]. Qed.
+Lemma nft_modify f : (∀ s, max_nodes (f s) = max_nodes s) → nft (modify f).
+Proof. intros Hf s r s' Ht [= <- <-]. by rewrite Hf. Qed.
+Lemma nft_bind {A B} (m : MS A) (f : A → MS B) :
+  nft m → (∀ a, nft (f a)) → nft (bind m f).
+Proof.
+  intros Hm Hf s r s' Ht. unfold bind. destruct (m s) as [[a|e] s1] eqn:E.
+  - destruct (Hm s _ s1 Ht E) as [Ht1 _]. apply (Hf a _ _ _ Ht1).
+  - intros [= <- <-]. destruct (Hm s _ s1 Ht E) as [? Hne]. split; [done|].
+    intros [= ->]. by apply Hne.
+Qed.
+Lemma nft_assert b : nft (assert b).
+Proof. unfold assert. destruct b; [apply nft_ret|by apply nft_raise]. Qed.
+Lemma nft_ensure e b : e ≠ ERuntime → nft (ensure e b).
+Proof. intros. unfold ensure. destruct b; [apply nft_ret|by apply nft_raise]. Qed.
+Lemma nft_of_opt {A} e (o : option A) : e ≠ ERuntime → nft (of_opt e o).
+Proof. intros. destruct o; [apply nft_ret|by apply nft_raise]. Qed.
+Lemma nft_foldM {A B} (f : B → A → MS B) l b : (∀ b a, nft (f b a)) → nft (foldM f b l).
+Proof.
+  intros Hf. revert b. induction l as [|a l IH]; intros b; [apply nft_ret|].
+  cbn [foldM]. apply nft_bind; [apply Hf|]. intros b'. apply IH.
+Qed.
+Lemma nft_mapM {A B} (f : A → MS B) l : (∀ a, nft (f a)) → nft (mapM f l).
+Proof.
+  intros Hf. induction l as [|a l IH]; [apply nft_ret|].
+  cbn [mapM]. apply nft_bind; [apply Hf|]. intros b.
+  apply nft_bind; [apply IH|]. intros bs. apply nft_ret.
+Qed.
+Lemma nft_forM {A} (f : A → MS unit) l : (∀ a, nft (f a)) → nft (forM l f).
+Proof.
+  intros Hf. induction l as [|a l IH]; [apply nft_ret|].
+  cbn [forM]. apply nft_bind; [apply Hf|]. intros _. apply IH.
+Qed.
+Lemma nft_getsucc n : nft (getsucc n).
+Proof. intros s r s' Ht. unfold getsucc. destruct (succ s !! n); by intros [= <- <-]. Qed.
+Lemma nft_getref n : nft (getref n).
+Proof. intros s r s' Ht. unfold getref. destruct (refc s !! n); by intros [= <- <-]. Qed.
+Lemma nft_rr : nft request_reordering.
+Proof.
+  intros s r s' Ht. unfold request_reordering.
+  destruct (last_len s); [|by intros [= <- <-]].
+  destruct (trig s) as [[|[|k]]|]; try case_decide; by intros [= <- <-].
+Qed.
+Lemma nft_pop_order X : nft (pop_order X).
+Proof.
+  intros s r s' Ht. unfold pop_order. cbn [bind get]. destruct (tape s); [by intros [= <- <-]|].
+  cbn [bind modify]. case_decide; by intros [= <- <-].
+Qed.
+
+Ltac nft1 :=
+  first
+    [ apply nft_ret | (apply nft_raise; discriminate) | apply nft_get | apply nft_assert
+    | (apply nft_ensure; discriminate) | (apply nft_of_opt; discriminate)
+    | apply nft_getsucc | apply nft_getref | apply nft_rr | apply nft_pop_order
+    | (apply nft_modify; intros; reflexivity)
+    | (apply nft_bind; [|intros ?])
+    | (apply nft_foldM; intros ? ?)
+    | (apply nft_mapM; intros ?)
+    | (apply nft_forM; intros ?)
+    | case_decide | case_match ].
+
+Lemma nft_getsuccZ u : nft (getsuccZ u).
+Proof. unfold getsuccZ. repeat nft1. Qed.
+Lemma nft_level_of u : nft (level_of u).
+Proof. unfold level_of. repeat first [apply nft_getsuccZ | nft1]. Qed.
+Lemma nft_incref u : nft (incref u).
+Proof. unfold incref. repeat nft1. Qed.
+Lemma nft_decref u : nft (decref u).
+Proof. unfold decref. repeat nft1. Qed.
+Lemma nft_ref u : nft (ref u).
+Proof. unfold ref. repeat nft1. Qed.
+Lemma nft_bind_get {B} (f : st → MS B) :
+  (∀ s, max_nodes s = None → nft (f s)) → nft (bind get f).
+Proof. intros Hf s r s' Ht. cbn [bind get]. by apply Hf. Qed.
+Lemma nft_find_or_add i v w : nft (find_or_add i v w).
+Proof.
+  unfold find_or_add. apply nft_bind; [apply nft_rr|]. intros _.
+  apply nft_bind_get. intros s Hs. rewrite Hs. cbn [fits ensure].
+  repeat first [apply nft_incref | nft1].
+Qed.
+Ltac nft2 :=
+  first [ apply nft_getsuccZ | apply nft_level_of | apply nft_incref | apply nft_decref
+        | apply nft_ref | apply nft_find_or_add | nft1 ].
+Lemma nft_levels : nft levels_.
+Proof. unfold levels_. repeat nft2. Qed.
+Lemma nft_low_high u : nft (low_high u).
+Proof. unfold low_high. repeat nft2. Qed.
+Lemma nft_swap_cofactor u y : nft (swap_cofactor u y).
+Proof. unfold swap_cofactor. repeat nft2. Qed.
+Lemma nft_set_node u t : nft (set_node u t).
+Proof. unfold set_node. repeat nft2. Qed.
+Ltac nft3 :=
+  first [ apply nft_low_high | apply nft_swap_cofactor | apply nft_set_node | nft2 ].
+Lemma nft_swap_collect j o : nft (swap_collect j o).
+Proof. unfold swap_collect. repeat nft3. Qed.
+Lemma nft_swap_up x y l : nft (swap_up x y l).
+Proof. unfold swap_up. repeat nft3. Qed.
+Lemma nft_swap_indep x y l : nft (swap_indep x y l).
+Proof. unfold swap_indep. repeat nft3. Qed.
+Lemma nft_swap_dep x y d l : nft (swap_dep x y d l).
+Proof. unfold swap_dep. repeat nft3. Qed.
+Lemma nft_var_at_level l : nft (var_at_level l).
+Proof. unfold var_at_level. repeat nft3. Qed.
+Lemma nft_level_of_var v : nft (level_of_var v).
+Proof. unfold level_of_var. repeat nft3. Qed.
+Lemma nft_gc_loop fuel : ∀ U, nft (gc_loop fuel U).
+Proof.
+  induction fuel as [|f IH]; intros U; cbn [gc_loop]; [by apply nft_raise|].
+  destruct (elements U) as [|u l]; [apply nft_ret|].
+  repeat nft3; apply IH.
+Qed.
+Lemma nft_collect_garbage roots : nft (collect_garbage roots).
+Proof. unfold collect_garbage. repeat first [apply nft_gc_loop | nft3]. Qed.
+Lemma nft_child_level v : nft (child_level v).
+Proof. unfold child_level. repeat nft3. Qed.
+Lemma nft_dep_count y X : nft (dep_count y X).
+Proof. unfold dep_count. repeat first [apply nft_child_level | nft3]. Qed.
+Ltac nft4 :=
+  first [ apply nft_dep_count | apply nft_levels | apply nft_swap_collect | apply nft_swap_up | apply nft_swap_indep
+        | apply nft_swap_dep | apply nft_var_at_level | apply nft_level_of_var
+        | apply nft_collect_garbage | nft1 ].
+Lemma nft_swap x y al : nft (swap x y al).
+Proof.
+  unfold swap. apply nft_bind; [repeat nft4|]. intros al'.
+  apply nft_bind_get. intros s Hs. rewrite Hs. cbn [swap_fits ensure].
+  repeat nft4.
+Qed.
+Lemma nft_shift_loop n : ∀ i d al sz, nft (shift_loop n i d al sz).
+Proof.
+  induction n as [|n IH]; intros i d al sz; cbn [shift_loop]; [apply nft_ret|].
+  apply nft_bind; [apply nft_swap|]. intros [[o nn] al']. apply IH.
+Qed.
+Lemma nft_shift a e al : nft (shift a e al).
+Proof. unfold shift. repeat first [apply nft_shift_loop | nft4]. Qed.
+Ltac nft5 := first [ apply nft_swap | apply nft_shift | nft4 ].
+Lemma nft_reorder_var v al : nft (reorder_var v al).
+Proof. unfold reorder_var. repeat nft5. Qed.
+Lemma nft_apply_sifting : nft apply_sifting.
+Proof. unfold apply_sifting. repeat first [apply nft_reorder_var | nft5]. Qed.
+Lemma nft_sort_to_order o : nft (sort_to_order o).
+Proof. unfold sort_to_order. repeat nft5. Qed.
+Lemma nft_reorder_to_pairs p : nft (reorder_to_pairs p).
+Proof. unfold reorder_to_pairs. repeat nft5. Qed.
+Lemma nft_reorder o : nft (reorder o).
+Proof. destruct o; [apply nft_sort_to_order|apply nft_apply_sifting]. Qed.
